@@ -145,6 +145,8 @@ def run(ctx, res):
         res.count("histories")
         if getattr(case, "doc", None):
             res.count("in_document")
+    res.count("state_invariants_checked", TH.STATE_INVARIANTS["checked"])
+    res.count("state_invariants_unavailable", TH.STATE_INVARIANTS["unavailable"])
 
 
 def replay(case):
